@@ -73,10 +73,24 @@ def record(mol, grid, window, pka_text, max_groups=None):
     f = pkaparse.parse(pka_text) if pka_text else None
     # the report written for each single conformation states that conformation's own pI
     confpi = []
+    confch = []
     if len(mol.conformation_names) > 1:
+        import os as _os
+        import tempfile as _tf
         import propka.output as pout
         for cn in mol.conformation_names:
-            sect = pout.get_charge_profile_section(mol, conformation=cn)
+            # the file propka.output.write_pka writes for this conformation (its public per-conformation writer)
+            with _tf.TemporaryDirectory() as td_:
+                fn_ = _os.path.join(td_, "conf.pka")
+                pout.write_pka(mol, mol.version.parameters, filename=fn_, conformation=cn, reference=mol.options.reference,
+                               verbose=False)
+                sect = open(fn_).read()
+            fc_ = pkaparse.parse(sect)
+            api_ = mol.get_charge_profile(conformation=cn, grid=g)
+            if api_ is not None:
+                confch.append([[r_[1], r_[2]] for r_ in fc_["charge_rows"]] and
+                              [[fr[1], fr[2], r4(ar[1]), r4(ar[2])] for fr, ar in zip(fc_["charge_rows"], api_)]
+                              if len(fc_["charge_rows"]) == len(api_) else [[0, 0, 999999, 999999]])
             import re as _re
             m_ = _re.search(r"The pI is\s*(-?\d+\.\d\d) \(folded\) and\s*(-?\d+\.\d\d) \(unfolded\)", sect)
             fp = [pkaparse.cents(m_.group(1)), pkaparse.cents(m_.group(2))] if m_ else None
@@ -84,7 +98,7 @@ def record(mol, grid, window, pka_text, max_groups=None):
             if fp:
                 confpi.append([fp[0], fp[1], micro(af), micro(au)])
     rec = {
-        "confpi": confpi,
+        "confpi": confpi, "confch": confch,
         "g": [milli_str(x) for x in grid], "w": [milli_str(x) for x in window],
         "ph": [micro(p) for p in phs], "dg": [r4(d) for _, d in prof],
         "chph": [micro(r[0]) for r in ch], "ch": [[r4(r[1]), r4(r[2])] for r in ch],
